@@ -62,9 +62,9 @@ HIST_NOTE = ("Quantifier 'histories': the system under simulation is the long-li
 TEXTS = {
     "C18": dict(
         level_text="Seeded simulation over the product's own nondeterminism seams: every string/integer-keyed map range of gotree iterates in a seeded permutation, the wall clock is "
-                   "simulated, goroutines run under the deterministic scheduler, and the process boundary is crossed with the instrumented binary. 76 command templates "
+                   "simulated, goroutines run under the deterministic scheduler, and the process boundary is crossed with the instrumented binary. 110 templates (commands and library-call sequences) "
                    "(generators, randomised edits, sampling, pruning, renaming, format conversion, consensus, supports, comparisons, acr/asr incl. protein alignments with X) "
-                   "run in-process through cmd.RootCmd with --seed fixed under seam settings A, B and A again, and as separate processes under both map seeds; all outputs "
+                   "run in-process through cmd.RootCmd with --seed fixed under seam settings A, B and A again, under 3..10 further schedules when the code started goroutines (five strategies, one of which starves a sixth of the goroutines), and as separate processes under both map seeds; every template is executed on a floor of generated inputs before the seeded search; all outputs "
                    "must be byte-identical (per-tree records of threaded commands after sorting lines, documented date lines masked). The threaded templates also run in the "
                    "-race binary (engine c18thr): a data race between workers is a result that may differ between runs. Sampling: evidence, not proof.",
         design_ref="§3.4, §4 C18",
@@ -80,7 +80,7 @@ TEXTS = {
         design_ref="§4 C15", level_note=HIST_NOTE + " The distance oracle is evaluated only when every branch has a length or none has (path lengths are undefined otherwise).",
         technique="deterministic simulation: seeded two-party operation histories with an independence invariant and a reference-model distance oracle after every step"),
     "C17": dict(
-        level_text="Seeded histories of root moves (re-rooting at inner nodes, outgroup, midpoint, unroot, rotations) on binary trees of 4..14 tips, then the NNI enumeration with a "
+        level_text="Seeded histories of root moves (re-rooting at inner nodes, outgroup, midpoint, unroot, rotations) on binary trees of 4..14 tips (one case in six presented from one of its tips: root node with a single neighbour), then the NNI enumeration with a "
                    "drawn pattern of Apply / repeated Apply / Undo / repeated Undo inside the callback; per proposal: structural checker, same tips, exactly one split out and "
                    "one in, pairwise distinct neighbours, byte-identical text after Undo and after the enumeration, two proposals per enumerated branch (each inner split "
                    "removed exactly twice), 2(n-3) proposals on unrooted trees. Sampling: evidence, not proof.",
